@@ -168,6 +168,7 @@ def c08(rec, tier):
     F = D(rec)
     f4_sched.run(rec, F)
     f4_vm.runtime_error_has_error(rec, F)
+    f4_chan.runnable_scan(rec, F)
 
 
 def c15(rec, tier):
